@@ -222,4 +222,173 @@ func c05Run(c *Ctx) {
 	for k, v := range bounds {
 		c.Bound(k, v)
 	}
+	c05Long(c)
+}
+
+// c05LongFamilies: size-parameterised valid sentences (as token lists). The short-sequence sweep
+// cannot see a limit that only bites at 33 parentheses or 65 operands; these do.
+var c05LongFamilies = map[string]func(n int) []string{
+	"or-chain":  func(n int) []string { return c05Join(n, "OR", func(i int) []string { return []string{"MIT"} }) },
+	"and-chain": func(n int) []string { return c05Join(n, "AND", func(i int) []string { return []string{"MIT"} }) },
+	"flat-groups-or": func(n int) []string {
+		return c05Join(n, "OR", func(i int) []string { return []string{"(", "MIT", ")"} })
+	},
+	"flat-groups-and": func(n int) []string {
+		return c05Join(n, "AND", func(i int) []string { return []string{"(", "MIT", "OR", "ISC", ")"} })
+	},
+	"triple-paren-groups": func(n int) []string {
+		return c05Join(n, "AND", func(i int) []string { return []string{"(", "(", "(", "MIT", ")", ")", ")"} })
+	},
+	"paren-depth": func(n int) []string {
+		var t []string
+		for i := 0; i < n; i++ {
+			t = append(t, "(")
+		}
+		t = append(t, "MIT", "AND", "ISC")
+		for i := 0; i < n; i++ {
+			t = append(t, ")")
+		}
+		return t
+	},
+	"right-nested": func(n int) []string {
+		var t []string
+		for i := 0; i < n; i++ {
+			op := "AND"
+			if i%2 == 1 {
+				op = "OR"
+			}
+			t = append(t, "MIT", op, "(")
+		}
+		t = append(t, "ISC")
+		for i := 0; i < n; i++ {
+			t = append(t, ")")
+		}
+		return t
+	},
+	"left-nested": func(n int) []string {
+		var t []string
+		for i := 0; i < n; i++ {
+			t = append(t, "(")
+		}
+		t = append(t, "MIT")
+		for i := 0; i < n; i++ {
+			op := "AND"
+			if i%2 == 1 {
+				op = "OR"
+			}
+			t = append(t, op, "ISC", ")")
+		}
+		return t
+	},
+	"rich-chain": func(n int) []string {
+		forms := [][]string{{"GPL-2.0", "+", "WITH", "Bison-exception-2.2"}, {"DocumentRef-d", ":", "LicenseRef-x"}, {"Apache-2.0-or-later"}, {"MIT-only"}, {"LicenseRef-x"}, {"GPL-2.0-or-later", "+"}}
+		return c05Join(n, "OR", func(i int) []string { return forms[i%len(forms)] })
+	},
+	"mixed-precedence": func(n int) []string {
+		var t []string
+		for i := 0; i < n; i++ {
+			if i > 0 {
+				if i%3 == 0 {
+					t = append(t, "OR")
+				} else {
+					t = append(t, "AND")
+				}
+			}
+			t = append(t, "MIT")
+		}
+		return t
+	},
+}
+
+func c05Join(n int, op string, term func(i int) []string) []string {
+	var t []string
+	for i := 0; i < n; i++ {
+		if i > 0 {
+			t = append(t, op)
+		}
+		t = append(t, term(i)...)
+	}
+	return t
+}
+
+func c05Long(c *Ctx) {
+	sizes := []int{1, 2, 3, 4, 5, 6, 7, 8, 9, 10, 12, 15, 16, 17, 20, 24, 31, 32, 33, 34, 40, 48, 63, 64, 65, 66, 80, 96, 100, 127, 128, 129}
+	if c.Thorough() {
+		sizes = append(sizes, 160, 200, 255, 256, 257, 300, 400, 511, 512, 513, 700, 1000, 1023, 1024, 1025)
+	}
+	var names []string
+	for k := range c05LongFamilies {
+		names = append(names, k)
+	}
+	sortStrings(names)
+	c.Bound("long_sentences", map[string]any{"families": names, "sizes": sizes, "edits": "the sentence itself, every single-token deletion (n <= 34) or deletions at the first / last / middle 3 positions, in loose and tight rendering"})
+	var idx int64
+	for _, name := range names {
+		fam := c05LongFamilies[name]
+		for _, n := range sizes {
+			idx++
+			if !c.Mine(idx) {
+				continue
+			}
+			if c.Expired() {
+				return
+			}
+			texts := fam(n)
+			seq := toks(texts)
+			check := func(s []Tok, what string) {
+				for _, rn := range []string{"loose", "tight"} {
+					text := renderBy(rn, s)
+					if !c.FirstTime(text) || !c.Begin(first(text, 200)) {
+						continue
+					}
+					msg, out := c05Check(s, text)
+					c.Inc("states")
+					c.Inc("transitions")
+					c.Inc("evaluations")
+					c.Inc("long_sentence_cases")
+					c.Outcome("long:" + out)
+					if out == "valid" {
+						c.Inc("nontrivial")
+						c.Inc("traces")
+					} else if out == "invalid" {
+						c.Inc("traces")
+					}
+					if msg != "" {
+						dir := "rejects-valid"
+						if strings.Contains(msg, "accepts") {
+							dir = "accepts-invalid"
+						}
+						c.Report(Violation{Kind: "c05.seq", Class: "long:" + dir + ":" + name, Key: fmt.Sprintf("long:%s:n=%d:%s:%s", name, n, what, rn), Size: len(text),
+							Msg:  fmt.Sprintf("family %s, n=%d (%d tokens, %s): %s", name, n, len(s), what, first(msg, 300)),
+							Case: mustJSON(c05Case{Tokens: tokTexts(s), Render: rn, Text: text})})
+					}
+				}
+			}
+			check(seq, "the sentence itself")
+			var positions []int
+			if n <= 34 {
+				for i := range seq {
+					positions = append(positions, i)
+				}
+			} else {
+				m := len(seq) / 2
+				positions = []int{0, 1, 2, m - 1, m, m + 1, len(seq) - 3, len(seq) - 2, len(seq) - 1}
+			}
+			for _, p := range positions {
+				if p < 0 || p >= len(seq) {
+					continue
+				}
+				del := append(append([]Tok{}, seq[:p]...), seq[p+1:]...)
+				check(del, fmt.Sprintf("token %d deleted", p))
+			}
+		}
+	}
+}
+
+func sortStrings(l []string) {
+	for i := 1; i < len(l); i++ {
+		for j := i; j > 0 && l[j] < l[j-1]; j-- {
+			l[j], l[j-1] = l[j-1], l[j]
+		}
+	}
 }
